@@ -313,6 +313,8 @@ pub(crate) fn openat_follow<Fd: AsFd, P: AsRef<Path>>(
     mut flags: OpenFlags,
     mode: RawMode, // TODO: Should we take rustix::fs::Mode directly?
 ) -> Result<OwnedFd, Error> {
+    #[cfg(feature = "_verif_hooks")]
+    use crate::verif::shim_fs as rustix_fs;
     let dirfd = dirfd.as_fd().hotfix_rustix_fd()?;
     let path = path.as_ref();
 
@@ -351,6 +353,8 @@ pub(crate) fn openat<Fd: AsFd, P: AsRef<Path>>(
 /// argument of `readlinkat(2)`. We need the dirfd argument, so we need a
 /// wrapper.
 pub(crate) fn readlinkat<Fd: AsFd, P: AsRef<Path>>(dirfd: Fd, path: P) -> Result<PathBuf, Error> {
+    #[cfg(feature = "_verif_hooks")]
+    use crate::verif::shim_fs as rustix_fs;
     let dirfd = dirfd.as_fd().hotfix_rustix_fd()?;
     let path = path.as_ref();
 
@@ -391,6 +395,8 @@ pub(crate) fn mkdirat<Fd: AsFd, P: AsRef<Path>>(
     path: P,
     mode: RawMode, // TODO: Should we take rustix::fs::Mode directly?
 ) -> Result<(), Error> {
+    #[cfg(feature = "_verif_hooks")]
+    use crate::verif::shim_fs as rustix_fs;
     let dirfd = dirfd.as_fd().hotfix_rustix_fd()?;
     let path = path.as_ref();
 
@@ -416,6 +422,8 @@ pub(crate) fn mknodat<Fd: AsFd, P: AsRef<Path>>(
     raw_mode: RawMode, // TODO: Should we take rustix::fs::{Mode,FileType} directly?
     dev: Dev,
 ) -> Result<(), Error> {
+    #[cfg(feature = "_verif_hooks")]
+    use crate::verif::shim_fs as rustix_fs;
     let dirfd = dirfd.as_fd().hotfix_rustix_fd()?;
     let path = path.as_ref();
     let (file_type, mode) = (
@@ -445,6 +453,8 @@ pub(crate) fn unlinkat<Fd: AsFd, P: AsRef<Path>>(
     path: P,
     flags: AtFlags,
 ) -> Result<(), Error> {
+    #[cfg(feature = "_verif_hooks")]
+    use crate::verif::shim_fs as rustix_fs;
     let dirfd = dirfd.as_fd().hotfix_rustix_fd()?;
     let path = path.as_ref();
 
@@ -467,6 +477,8 @@ pub(crate) fn linkat<Fd1: AsFd, P1: AsRef<Path>, Fd2: AsFd, P2: AsRef<Path>>(
     new_path: P2,
     flags: AtFlags,
 ) -> Result<(), Error> {
+    #[cfg(feature = "_verif_hooks")]
+    use crate::verif::shim_fs as rustix_fs;
     let (old_dirfd, old_path) = (old_dirfd.as_fd().hotfix_rustix_fd()?, old_path.as_ref());
     let (new_dirfd, new_path) = (new_dirfd.as_fd().hotfix_rustix_fd()?, new_path.as_ref());
 
@@ -492,6 +504,8 @@ pub(crate) fn symlinkat<P1: AsRef<Path>, Fd: AsFd, P2: AsRef<Path>>(
     dirfd: Fd,
     path: P2,
 ) -> Result<(), Error> {
+    #[cfg(feature = "_verif_hooks")]
+    use crate::verif::shim_fs as rustix_fs;
     let (dirfd, path) = (dirfd.as_fd().hotfix_rustix_fd()?, path.as_ref());
     let target = target.as_ref();
 
@@ -513,6 +527,8 @@ pub(crate) fn renameat<Fd1: AsFd, P1: AsRef<Path>, Fd2: AsFd, P2: AsRef<Path>>(
     new_dirfd: Fd2,
     new_path: P2,
 ) -> Result<(), Error> {
+    #[cfg(feature = "_verif_hooks")]
+    use crate::verif::shim_fs as rustix_fs;
     let (old_dirfd, old_path) = (old_dirfd.as_fd().hotfix_rustix_fd()?, old_path.as_ref());
     let (new_dirfd, new_path) = (new_dirfd.as_fd().hotfix_rustix_fd()?, new_path.as_ref());
 
@@ -545,6 +561,8 @@ pub(crate) fn renameat2<Fd1: AsFd, P1: AsRef<Path>, Fd2: AsFd, P2: AsRef<Path>>(
     new_path: P2,
     flags: RenameFlags,
 ) -> Result<(), Error> {
+    #[cfg(feature = "_verif_hooks")]
+    use crate::verif::shim_fs as rustix_fs;
     // Use renameat(2) if no flags are specified.
     if flags.is_empty() {
         return renameat(old_dirfd, old_path, new_dirfd, new_path);
@@ -569,6 +587,8 @@ pub(crate) fn renameat2<Fd1: AsFd, P1: AsRef<Path>, Fd2: AsFd, P2: AsRef<Path>>(
 ///
 /// This is needed because Rust doesn't provide any interface for `fstatfs(2)`.
 pub(crate) fn fstatfs<Fd: AsFd>(fd: Fd) -> Result<StatFs, Error> {
+    #[cfg(feature = "_verif_hooks")]
+    use crate::verif::shim_fs as rustix_fs;
     let fd = fd.as_fd().hotfix_rustix_fd()?;
 
     rustix_fs::fstatfs(fd).map_err(|errno| Error::Fstatfs {
@@ -582,6 +602,8 @@ pub(crate) fn fstatfs<Fd: AsFd>(fd: Fd) -> Result<StatFs, Error> {
 ///
 /// This is needed because Rust doesn't provide any interface for `fstatat(2)`.
 pub(crate) fn fstatat<Fd: AsFd, P: AsRef<Path>>(dirfd: Fd, path: P) -> Result<Stat, Error> {
+    #[cfg(feature = "_verif_hooks")]
+    use crate::verif::shim_fs as rustix_fs;
     let dirfd = dirfd.as_fd().hotfix_rustix_fd()?;
     let path = path.as_ref();
     let flags = AtFlags::NO_AUTOMOUNT | AtFlags::SYMLINK_NOFOLLOW | AtFlags::EMPTY_PATH;
@@ -599,6 +621,8 @@ pub(crate) fn statx<Fd: AsFd, P: AsRef<Path>>(
     path: P,
     mask: StatxFlags,
 ) -> Result<Statx, Error> {
+    #[cfg(feature = "_verif_hooks")]
+    use crate::verif::shim_fs as rustix_fs;
     let dirfd = dirfd.as_fd().hotfix_rustix_fd()?;
     let path = path.as_ref();
     let flags = AtFlags::NO_AUTOMOUNT | AtFlags::SYMLINK_NOFOLLOW | AtFlags::EMPTY_PATH;
@@ -679,6 +703,8 @@ pub(crate) fn openat2<Fd: AsFd, P: AsRef<Path>>(
     path: P,
     how: &OpenHow,
 ) -> Result<OwnedFd, Error> {
+    #[cfg(feature = "_verif_hooks")]
+    use crate::verif::shim_libc as libc;
     let dirfd = dirfd.as_fd().hotfix_rustix_fd()?;
     let path = path.as_ref();
 
@@ -722,10 +748,14 @@ pub(crate) fn getpid() -> rustix_process::RawPid {
 }
 
 pub(crate) fn gettid() -> rustix_process::RawPid {
+    #[cfg(feature = "_verif_hooks")]
+    use crate::verif::shim_thread as rustix_thread;
     rustix_process::Pid::as_raw(Some(rustix_thread::gettid()))
 }
 
 pub(crate) fn geteuid() -> rustix_process::RawUid {
+    #[cfg(feature = "_verif_hooks")]
+    use crate::verif::shim_process as rustix_process;
     rustix_process::geteuid().as_raw()
 }
 
@@ -741,6 +771,8 @@ pub(crate) fn getcwd() -> Result<PathBuf, anyhow::Error> {
 }
 
 pub(crate) fn fsopen<S: AsRef<str>>(fstype: S, flags: FsOpenFlags) -> Result<OwnedFd, Error> {
+    #[cfg(feature = "_verif_hooks")]
+    use crate::verif::shim_mount as rustix_mount;
     let fstype = fstype.as_ref();
 
     rustix_mount::fsopen(fstype, flags).map_err(|errno| Error::Fsopen {
@@ -755,6 +787,8 @@ pub(crate) fn fsconfig_set_string<Fd: AsFd, K: AsRef<str>, V: AsRef<str>>(
     key: K,
     value: V,
 ) -> Result<(), Error> {
+    #[cfg(feature = "_verif_hooks")]
+    use crate::verif::shim_mount as rustix_mount;
     let sfd = sfd.as_fd().hotfix_rustix_fd()?;
     let key = key.as_ref();
     let value = value.as_ref();
@@ -768,6 +802,8 @@ pub(crate) fn fsconfig_set_string<Fd: AsFd, K: AsRef<str>, V: AsRef<str>>(
 }
 
 pub(crate) fn fsconfig_create<Fd: AsFd>(sfd: Fd) -> Result<(), Error> {
+    #[cfg(feature = "_verif_hooks")]
+    use crate::verif::shim_mount as rustix_mount;
     let sfd = sfd.as_fd().hotfix_rustix_fd()?;
 
     rustix_mount::fsconfig_create(sfd).map_err(|errno| Error::FsconfigCreate {
@@ -781,6 +817,8 @@ pub(crate) fn fsmount<Fd: AsFd>(
     flags: FsMountFlags,
     mount_attrs: MountAttrFlags,
 ) -> Result<OwnedFd, Error> {
+    #[cfg(feature = "_verif_hooks")]
+    use crate::verif::shim_mount as rustix_mount;
     let sfd = sfd.as_fd().hotfix_rustix_fd()?;
 
     rustix_mount::fsmount(sfd, flags, mount_attrs).map_err(|errno| Error::Fsmount {
@@ -796,6 +834,8 @@ pub(crate) fn open_tree<Fd: AsFd, P: AsRef<Path>>(
     path: P,
     flags: OpenTreeFlags,
 ) -> Result<OwnedFd, Error> {
+    #[cfg(feature = "_verif_hooks")]
+    use crate::verif::shim_mount as rustix_mount;
     let dirfd = dirfd.as_fd().hotfix_rustix_fd()?;
     let path = path.as_ref();
 
